@@ -204,6 +204,8 @@ class VfsWorld:
             if pre is not None:
                 return pre(I, f.get('path'))
             return err(Opaque('Error', msg='bincode: invalid data', site=0, file=''))
+        if last2 in ('DefaultOptions::new', 'bincode::options', 'bincode::config'):
+            return Opaque('BincodeOptions')
         if last2 == 'SeaHasher::default' or last2 == 'SeaHasher::new':
             return Opaque('Hasher', h=Hinit)
         if last2 == 'Hasher::write':
@@ -245,6 +247,21 @@ class VfsWorld:
                     return ok(7)     # a positive byte count (chunk boundaries are arbitrary: short reads)
                 I.store_at(r, Opaque('Buffer', len=buf.get('len'), chunk=None))
                 return ok(0)
+            if t == 'BincodeOptions':
+                if method in ('with_fixint_encoding', 'with_varint_encoding', 'allow_trailing_bytes', 'reject_trailing_bytes', 'with_limit', 'with_no_limit',
+                              'with_little_endian', 'with_big_endian'):
+                    if method in ('with_varint_encoding', 'reject_trailing_bytes', 'with_big_endian'):
+                        # a different wire format than the writer's: records written by serialize_into would not decode
+                        return Opaque('BincodeOptions', incompatible=True)
+                    return v
+                if method == 'deserialize_from':
+                    if v.get('incompatible'):
+                        return err(Opaque('Error', msg='bincode: invalid data', site=0, file=''))
+                    return self.call_path(I, 'bincode::deserialize_from', args, node)
+                if method == 'serialize_into':
+                    return self.call_path(I, 'bincode::serialize_into', args, node)
+            if t == 'StdFile' and method == 'metadata':
+                return ok(Opaque('Metadata', path=v.get('path')))
             if t == 'Hasher':
                 if method == 'finish':
                     return Hfin(v.get('h'))
